@@ -16,6 +16,7 @@ mod c15;
 mod c16;
 mod c17;
 mod c18;
+mod c19;
 mod c20;
 mod dbg;
 mod dump;
@@ -27,6 +28,10 @@ use std::path::PathBuf;
 fn main() {
     let args: Vec<String> = std::env::args().collect();
     if args.len() == 2 && args[1] == "dbg" { dbg::run(); return; }
+    if args.len() >= 3 && args[1] == "c19verify" {
+        let bad = c19::cross_verify(&args[2], args.get(3).map(|s| s == "thorough").unwrap_or(false));
+        std::process::exit(if bad == 0 { 0 } else { 1 });
+    }
     if args.len() < 6 || args[1] != "emit" {
         eprintln!("usage: p2h emit <prop> <seed> <quick|thorough> <outdir>");
         std::process::exit(2);
@@ -43,7 +48,6 @@ fn main() {
         libc::setrlimit(libc::RLIMIT_AS, &lim);
     }
     let mut e = util::Emitter::new(&dir);
-    let extra = serde_json::json!({});
     match prop {
         "c14" => c14::emit(&mut e, seed, thorough),
         "c01" => c01::emit(&mut e, seed, thorough),
@@ -56,6 +60,7 @@ fn main() {
         "c05" => c05::emit(&mut e, seed, thorough),
         "c12" => c12::emit(&mut e, seed, thorough),
         "c20" => c20::emit(&mut e, seed, thorough),
+        "c19" => c19::emit(&mut e, seed, thorough),
         "c18" => c18::emit(&mut e, seed, thorough),
         "c17" => c17::emit(&mut e, seed, thorough),
         "c16" => c16::emit(&mut e, seed, thorough),
@@ -66,5 +71,6 @@ fn main() {
             std::process::exit(2);
         }
     }
+    let extra = e.extra_json.take().unwrap_or_else(|| serde_json::json!({}));
     e.finish(&dir, extra);
 }
